@@ -14,9 +14,10 @@ from . import ctx as _ctx
 from .ctx import OutOfReach, SpecError
 from .sym import SymBool, SymInt, SymReal, SymStr, is_sym, mk_bool, mk_num, num_term, to_z3_bool
 from . import types as T
-from .types import Int, Real, Bool, Str, Any, Opt, Tuple, Val, Fn
+from .types import Int, Real, Bool, Str, Any, Opt, Tuple, Val, Fn, RealInf, IntInf
 from .heap import (Ref, OptRef, Seq, Map, Set, ClassInfo, REG, ObjProxy, SymList, SymDict, SymSet, Box,
                    same, new_object)
+from .bag import Bag, SymHeap
 from . import loader as _loader
 from .loops import LoopSpec
 from .gen import Yields
@@ -27,7 +28,28 @@ __all__ = ["Int", "Real", "Bool", "Str", "Any", "Opt", "Tuple", "Val", "Ref", "O
            "sym_or", "fresh", "assume", "oblige", "unchanged", "z3", "seq_term", "to_z3_bool",
            "mk_bool", "mk_num", "new_object", "num", "T", "stub_of", "REG", "valueclass", "Yields", "Fn", "ObjProxy", "SymList", "SymDict", "SymSet",
            "s_union", "s_inter", "s_diff", "s_eq", "s_subset", "s_disjoint", "s_is_empty", "s_has", "s_add",
-           "native"]
+           "native", "RealInf", "Bag", "SymHeap", "field_term", "OutOfReach", "Raw", "Not", "last_popped", "popped_any", "SpecError", "IntInf"]
+
+
+def last_popped(k=-1):
+    """raw term of the k-th element removed by heapq.heappop on this path (ghost)"""
+    pops = _ctx.cur().ghost_args.setdefault("heap_pops", [])
+    if not pops:
+        raise SpecError("last_popped(): no heappop on this path (guard the clause with a Python `if`)")
+    return pops[k]
+
+
+def popped_any():
+    return bool(_ctx.cur().ghost_args.get("heap_pops"))
+
+
+def field_term(obj, name, state=None):
+    """raw z3 term of a field of a symbolic object (no wrapping, hence no forking): for clauses
+    that must stay one formula (orders used under quantifiers)."""
+    c = _ctx.cur()
+    owner, ty = REG.field(obj._cls, name)
+    st = state if state is not None else obj._frozen
+    return z3.Select(c.heap.array((owner, name), ty, st), obj._ref)
 
 
 def native():
@@ -181,8 +203,28 @@ def exists(ty, body, name="e"):
     return mk_bool(z3.Exists([v], to_z3_bool(b)))
 
 
+class Raw:
+    """quantify over a z3 sort directly: the body receives the raw z3 term"""
+
+    def __init__(self, sort):
+        self._s = sort
+        self.name = f"Raw({sort})"
+
+    def sort(self):
+        return self._s
+
+
+def Not(x):
+    """negation that is also correct on Python bools (`~True` is -2 in Python)"""
+    if isinstance(x, bool):
+        return not x
+    return ~x
+
+
 def _wrap_quant(ty, v):
     # bound variables must not fork (no Opt / nullable / variant types)
+    if isinstance(ty, Raw):
+        return v
     if isinstance(ty, Ref):
         return ObjProxy(v, ty.cls)
     if ty is Int:
